@@ -218,7 +218,7 @@ structure Scene where
 deriving Repr, Inhabited
 
 inductive Err where
-  | nilMesh | badId | alphaCutoff | marshal
+  | nilMesh | badId | alphaCutoff | marshal | dupAttr
 deriving DecidableEq, Repr
 
 /-! ### writer state -/
@@ -567,6 +567,19 @@ def modelNode (md : Model) (meshIndex : Nat) (inst : Option (List (String × Nat
   { name := md.name, mesh := some meshIndex, translation := md.translation, rotation := md.rotation, scale := md.scale,
     inst := inst }
 
+/-- no string occurs twice -/
+def dupFree : List String → Bool
+  | [] => true
+  | a :: l => !l.contains a && dupFree l
+
+/-- `AddMesh` writes nothing for a mesh without primitives or (since fd26630) without any Float2/3/4 attribute -/
+def meshSkipped (m : PMesh) : Bool := m.primitiveCount == 0 || m.written.isEmpty
+
+/-- since fd26630: two vector attributes stored under one glTF name are rejected (`ErrInvalidInput`) before the material is
+    added; then the material is resolved -/
+def addModelGate (s : Scene) (w : W) (md : Model) (m : PMesh) : Except Err (W × Option Nat) :=
+  if dupFree (m.written.map (fun a => gltfAttrName a.name)) then addModelMaterial s w md else .error .dupAttr
+
 /-- one iteration of the model loop of `AddScene` (skeleton / animations are outside the model) -/
 def addModel (s : Scene) (w : W) (md : Model) : Except Err W :=
   match md.mesh with
@@ -574,8 +587,8 @@ def addModel (s : Scene) (w : W) (md : Model) : Except Err W :=
   | some id => match s.meshHeap[id]? with
     | none => .error .badId
     | some m =>
-      if m.primitiveCount = 0 then .ok w else     -- AddMesh returns -1 before touching the material
-      match addModelMaterial s w md with
+      if meshSkipped m then .ok w else     -- AddMesh returns -1 before touching the material
+      match addModelGate s w md m with
       | .error e => .error e
       | .ok r =>
         let a := addMesh r.1 md.name id m r.2
@@ -613,14 +626,22 @@ def addScene (s : Scene) (w : W) : Except Err W :=
   | .error e => .error e
   | .ok w1 => .ok (s.lights.foldl addLight w1)
 
-/-- `encoding/json` refuses NaN and ±Inf: no file is produced when a declared bound or a node TRS value is
-    not finite -/
+/-- `encoding/json` refuses NaN and ±Inf: no file is produced when a declared bound, a node TRS value, a light's intensity /
+    range, or a material scalar (factors, cutoff, texture scale / strength, transform and extension payload) is not finite -/
 def marshalOK (w : W) : Bool :=
   w.accessors.all (fun a => a.comp != .f32 ||
       ((a.min ++ a.max).all (fun b => match b with
         | some v => finite32 v
         | none => true)))
   && w.nodes.all (fun n => ((n.translation.getD []) ++ (n.rotation.getD []) ++ (n.scale.getD [])).all finite64)
+  && w.lightData.all (fun l => match l with
+      | [_, _, _, _, _, hi, iv, hr, rv] => (hi != 1 || finite64 iv) && (hr != 1 || finite64 rv)
+      | _ => true)
+  && w.materials.all (fun g =>
+      (g.metallic.toList ++ g.roughness.toList ++ g.alphaCutoff.toList ++ (g.normalTex.bind (·.2)).toList
+        ++ (g.occlusionTex.bind (·.2)).toList ++ g.exts.flatMap (·.payload)).all finite64
+      && ((g.baseColorTex.toList ++ g.metalRoughTex.toList ++ (g.normalTex.map (·.1)).toList ++ (g.occlusionTex.map (·.1)).toList
+            ++ g.exts.flatMap (fun e => e.texs.map (·.2))).all (fun t => (t.xform.getD []).all finite64)))
 
 def writeScene (s : Scene) : Except Err W :=
   match addScene s {} with
